@@ -11,6 +11,8 @@ from vlib import DRIVER, ENV, ensure_coq, ensure_harness
 def find_case(d):
     """returns (kind, case line) from a replay file written by the checks"""
     inp = d.get("input", {})
+    if isinstance(inp, str) and inp.startswith("MISMATCH"):
+        return "k7", inp
     if isinstance(inp, dict):
         if "k1_case" in inp:
             return "k1", inp["k1_case"]
@@ -33,6 +35,13 @@ def main(prop, path):
         return 1
     ensure_coq()
     gen_harness.main()
+    if kind == "k7":
+        bins = ensure_harness(["k7"])
+        toks = [t for t in case.split() if t.startswith("seed=") or t.startswith("n=")]
+        out = subprocess.run([bins["k7"]], input=" ".join(toks) + "\n", stdout=subprocess.PIPE, text=True, env=ENV).stdout
+        print("case : %s" % case[:600])
+        print("now  : %s" % out.strip()[:1500])
+        return 1 if "MISMATCH" in out else 0
     if kind == "k1":
         bins = ensure_harness(["k1"])
         a = subprocess.run([bins["k1"]], input=case + "\n", stdout=subprocess.PIPE, text=True, env=ENV).stdout.strip()
